@@ -42,6 +42,47 @@ for p1, p2, p3 in itertools.product(PR, repeat=3):
             bad.append('outer %r inner x@%r nested_flush=%r: %r - x dispatched before an event already queued when the pass began' % (outer, p3, nested, order))
         if order.count('x') != 1 or sorted(order) != ['a', 'b', 'x']:
             bad.append('outer %r: events lost or duplicated: %r' % (outer, order))
+# random multi-pass programs: handlers fire SEVERAL events with different priorities (in any order, e.g. 2, 1, 0), nothing is fired
+# from outside afterwards; every pass must dispatch exactly the events queued before it, ascending priority then fire order
+def run_random(seed):
+    rnd = random.Random(seed)
+    names = iter('n%d' % i for i in range(1000))
+    plan, model_q, seq, order = {}, [], [0], []
+    def grow(name, depth):
+        if depth >= 3:
+            return
+        kids = [(next(names), rnd.choice([0, 0, 1, 2, -1, 5, 0.5])) for _ in range(rnd.choice([0, 1, 2, 3, 3]))]
+        plan[name] = kids
+        for k, _ in kids:
+            grow(k, depth + 1)
+    class AppR(Component):
+        @handler('ev')
+        def _on(self, name):
+            order.append(name)
+            for n, p in plan.get(name, []):
+                self.fire(ev(n), priority=p)
+                seq[0] += 1
+                model_q.append((p, seq[0], n))
+    app = AppR()
+    for _ in range(rnd.choice([1, 1, 2])):
+        n, p = next(names), rnd.choice([0, 0, 0, 1])
+        grow(n, 0)
+        app.fire(ev(n), priority=p)
+        seq[0] += 1
+        model_q.append((p, seq[0], n))
+    for pass_ in range(6):
+        snap = [n for _, _, n in sorted(model_q)]
+        del model_q[:]
+        del order[:]
+        app.flush()
+        if order != snap:
+            return 'seed %d pass %d: dispatched %r, expected %r (events queued before the pass, ascending priority then FIFO)' % (seed, pass_ + 1, order, snap)
+    return None
+for seed in range(200):
+    r = run_random(seed)
+    if r:
+        bad.append(r)
+        break
 # handler priorities and stop()
 for prios in itertools.permutations([3, 1, 2, -100.5]):
     for stop_at in (None, 0, 1, 2):
